@@ -618,3 +618,43 @@ package io
 // values that are kept (strings, byte slices, interface{} contents) are never built from the
 // unsafe views of the window: the functions that produce them do not call the unsafe readers
 //@ rule no_calls from=\(\*Decoder\)\.(decodeString|decodeStringPtr|decodeBytes|decodeBytesPtr|decodeInterface|decodeInterfacePtr|ReadString|ReadSafeString|readSafeString|ReadBytes|readBytes|ReadStringAsBytes|readStringAsSafeBytes|Next|Until|decodeLongAsInterface|decodeDoubleAsInterface|decodeListAsInterface|decodeMapAsInterface|ReadObject|readObject|readObjectAsMap) to=(*Decoder).UnsafeUntil,(*Decoder).UnsafeNext,(*Decoder).readUnsafeString,(*Decoder).ReadUnsafeString,(*Decoder).readUnsafeBytes prop=C14
+
+// ---- first use of a struct type from several goroutines (C14) ------------------------------------
+//
+// Struct coders are published before their field tables are complete (recursive types need the
+// entry to exist). What makes that safe: the coder is write-locked from before it becomes visible
+// until its tables are assigned, and every use reads the tables under the read lock.
+
+//@ guarded structDecoder.fields by RWMutex
+//@ guarded structEncoder.fields by RWMutex
+//@ guarded structEncoder.metadata by RWMutex
+
+// (assumed) field resolution: never nil, touches no coder lock
+//@ func getFieldMap
+//@   havoc
+//@   ensures result != nil
+//@ func getFields
+//@   havoc
+//@ func registerNamedStructDecoder
+//@   havoc
+//@ func registerNamedStructEncoder
+//@   havoc
+//@ func registerValueEncoder
+//@   havoc
+//@ func appendName
+//@   havoc
+
+//@ func newNamedStructDecoder
+//@   prop C14
+//@   havoc
+//@   flag typeassert=panic
+//@   atcall registerNamedStructDecoder [write_locked_when_it_becomes_visible] ghost.held[addr(decoder.RWMutex)] == 1
+//@   atcall Unlock [field_table_assigned_before_the_lock_is_released] decoder.fields != nil
+//@   ensures [lock_released] ghost.held[addr(result.RWMutex)] == 0
+
+//@ func newNamedStructEncoder
+//@   prop C14
+//@   havoc
+//@   atcall registerNamedStructEncoder [write_locked_when_it_becomes_visible] ghost.held[addr(encoder.RWMutex)] == 1
+//@   atcall Unlock [class_metadata_assigned_before_the_lock_is_released] len(encoder.metadata) >= 3
+//@   ensures [lock_released] ghost.held[addr(result.RWMutex)] == 0
